@@ -311,7 +311,18 @@ impl SnapCheck<'_> {
             return Ok(());
         }
         self.stats.inc("states_checked");
+        // the continuation (b) runs on a copy that has NOT been opened before: recovery, the
+        // further writes and the close then happen in one session (an open in between can heal
+        // what a repair left behind)
+        let continue_it = (self.all_followups || s.call % 4 == 2) && !self.cfg.manual_persist && self.cfg.opts.iter().all(|o| !o.manual_persist) && self.cfg.filtered.is_empty();
+        let pristine = s.dir.with_extension("pristine");
+        if continue_it && crate::fsutil::copy_tree(&s.dir, &pristine).is_err() {
+            crate::fsutil::remove_tree(&pristine);
+        }
         let res = std::panic::catch_unwind(std::panic::AssertUnwindSafe(|| faults::read_dir_state(&s.dir, self.cfg)));
+        if res.as_ref().map_or(true, |r| r.is_err()) {
+            crate::fsutil::remove_tree(&pristine);
+        }
         let real = match res {
             Ok(Ok(r)) => r,
             Ok(Err(e)) => {
@@ -369,13 +380,14 @@ impl SnapCheck<'_> {
             }
         }
         // (b) life goes on - write, close, reopen (changes the directory, hence last)
-        if (self.all_followups || s.call % 4 == 2) && !self.cfg.manual_persist && self.cfg.opts.iter().all(|o| !o.manual_persist) && self.cfg.filtered.is_empty() {
+        if continue_it && pristine.exists() {
             let salt = u64::from(s.call);
             let r = std::panic::catch_unwind(std::panic::AssertUnwindSafe(|| {
-                let expect = faults::write_after_recovery(&s.dir, self.cfg, &real, salt)?;
-                let got = faults::read_dir_state(&s.dir, self.cfg)?;
+                let expect = faults::write_after_recovery(&pristine, self.cfg, &real, salt)?;
+                let got = faults::read_dir_state(&pristine, self.cfg)?;
                 Ok::<_, String>((expect, got))
             }));
+            crate::fsutil::remove_tree(&pristine);
             match r {
                 Ok(Ok((expect, got))) if expect == got => {
                     self.stats.inc("states_continued_after_recovery");
